@@ -6,14 +6,26 @@ use crate::model::container::Codec;
 use crate::model::*;
 use apache_avro::types::Value as AV;
 
+/// apache-avro 0.17 mishandles several legal spellings (it drops an explicit empty
+/// namespace when it re-serialises the schema into the header, and can recurse
+/// without bound when decoding after such a mis-resolution), so the cross-check is
+/// restricted to schemas without namespaces, recursion or logical types.
 pub fn schema_in_apache_domain(s: &MSchema) -> bool {
+	let f = features(s);
+	if f.recursive || f.namespaces.iter().any(|n| !n.is_empty()) {
+		return false;
+	}
+	no_logical(s)
+}
+
+fn no_logical(s: &MSchema) -> bool {
 	if s.logical.is_some() {
 		return false;
 	}
 	match &s.ty {
-		MType::Array(i) | MType::Map(i) => schema_in_apache_domain(i),
-		MType::Union(bs) => bs.iter().all(schema_in_apache_domain),
-		MType::Record { fields, .. } => fields.iter().all(|(_, f)| schema_in_apache_domain(f)),
+		MType::Array(i) | MType::Map(i) => no_logical(i),
+		MType::Union(bs) => bs.iter().all(no_logical),
+		MType::Record { fields, .. } => fields.iter().all(|(_, f)| no_logical(f)),
 		_ => true,
 	}
 }
